@@ -3064,3 +3064,32 @@ def kindguard(pid):
         res.floor("chain-kind decisions", n, ctx.table("floors").get("kindguard_sites", 0))
         return res
     return run
+
+
+def setlenguard(pid):
+    """R-SETLENGUARD: how many sectors a length needs is the chain handle's business (`Chain::set_len` rounds up and
+    cuts or appends).  The stream layer decides WHICH chain a length lives in - by the cutoff, by `new > old` - and
+    then hands the new length to `set_len` unconditionally; a test in the stream layer that compares sector counts
+    of its own (`new / sector_len == old / sector_len`: "nothing to do") rounds down where the handle rounds up, and
+    skips the call exactly when a length crosses a sector boundary by less than a sector."""
+    def run(ctx):
+        res = RuleResult("R-SETLENGUARD(%s)" % pid, "no call of Chain::set_len / MiniChain::set_len in the stream layer lies behind a comparison of quotients or remainders of lengths (the sector arithmetic belongs to the chain handle)")
+        n = 0
+        for f in ctx.fx.fns.values():
+            if not f.path.startswith("internal::stream::"):
+                continue
+            v = view(ctx, f)
+            g = None
+            for bb, c in sorted(v.calls.items()):
+                if not re.search(r"(chain::Chain|minichain::MiniChain)::<'a, F>::set_len$|Chain::<.*>::set_len$", c.name):
+                    continue
+                g = g or _guards(ctx, f)
+                n += 1
+                bad = [a for a in g.atoms_at(("t", bb)) if re.match(r"^!?\(?(Eq|Ne|Lt|Le|Gt|Ge)\(", a) and re.search(r"Div\(|Rem\(|div_ceil|Shr\(|next_multiple_of", a) and re.search(r"len|LEN", a)]
+                if bad:
+                    res.fail(Finding(res.rule, "R-SETLENGUARD/%s/set_len-behind-sector-arithmetic" % f.path, "%s calls set_len only behind %s: the stream layer's own sector count rounds differently from the chain handle's, so a resize that crosses a sector boundary by less than a sector leaves the chain one sector short (the tail is unreadable) or one too long (never released)" % (f.path.split("::")[-1], bad[0][:110]), f, c.term["span"]))
+                else:
+                    res.ok({"function": f.path, "line": c.line}, nontrivial=True)
+        res.floor("set_len calls in the stream layer", n, ctx.table("floors").get("setlenguard_sites", 0))
+        return res
+    return run
